@@ -78,23 +78,29 @@ Definition py_space_list : list N :=
   [9; 10; 11; 12; 13; 28; 29; 30; 31; 32; 133; 160; 5760; 8192; 8193; 8194; 8195; 8196; 8197;
    8198; 8199; 8200; 8201; 8202; 8232; 8233; 8239; 8287; 12288].
 Definition py_isspace (c : N) : bool := memN c py_space_list.
-(* int(str) skips these: non-ASCII spaces are mapped to a blank first, the
-   ASCII separators 28..31 are not skipped *)
-Definition int_isspace (c : N) : bool := py_isspace c && negb ((28 <=? c) && (c <=? 31)).
+(* int(str) first maps every non-ASCII blank to a space and every Unicode decimal
+   digit (category Nd) to its ASCII digit, any other non-ASCII character to a
+   question mark; the C parser then skips the C-locale blanks 9..13 and 32 (the
+   ASCII separators 28..31 are blanks for str.strip but not here) *)
+Definition int_isspace (c : N) : bool := ((9 <=? c) && (c <=? 13)) || (c =? c_sp).
 
-Fixpoint dropwhile (p : N -> bool) (s : text) : text :=
-  match s with [] => [] | c :: r => if p c then dropwhile p r else s end.
-Definition strip_by (p : N -> bool) (s : text) : text := rev (dropwhile p (rev (dropwhile p s))).
+(* code points of the digit zero of every run of ten decimal digits (Unicode
+   15.0.0, the data of this CPython; compared with the live unicodedata on every
+   run: Gen.gen_digit_zeros, Props.C14_digit_table_current) *)
+Definition digit_zeros : list N :=
+  [48; 1632; 1776; 1984; 2406; 2534; 2662; 2790; 2918; 3046; 3174; 3302; 3430; 3558; 3664;
+   3792; 3872; 4160; 4240; 6112; 6160; 6470; 6608; 6784; 6800; 6992; 7088; 7232; 7248; 42528;
+   43216; 43264; 43472; 43504; 43600; 44016; 65296; 66720; 68912; 69734; 69872; 69942; 70096;
+   70384; 70736; 70864; 71248; 71360; 71472; 71904; 72016; 72784; 73040; 73120; 73552; 92768;
+   92864; 93008; 120782; 120792; 120802; 120812; 120822; 123200; 123632; 124144; 125264; 130032].
 
-(* s.split(d) for a one-character separator d: never empty *)
-Fixpoint split1 (d : N) (s : text) : list text :=
-  match s with
-  | [] => [[]]
-  | c :: r => match split1 d r with
-              | [] => [[]]                                (* unreachable *)
-              | w :: ws => if c =? d then [] :: w :: ws else (c :: w) :: ws
-              end
-  end.
+Definition to_ascii (c : N) : N :=
+  if c <? 128 then c
+  else if py_isspace c then c_sp
+  else match find (fun z => (z <=? c) && (c <? z + 10)) digit_zeros with
+       | Some z => 48 + (c - z)
+       | None => 63
+       end.
 
 (* digits with single underscores between digits *)
 Fixpoint digits_ok_from (prev_digit : bool) (s : text) : bool :=
@@ -107,15 +113,8 @@ Fixpoint digits_ok_from (prev_digit : bool) (s : text) : bool :=
       else false
   end.
 
-(* characters the model of int() covers: ASCII, and the non-ASCII blanks.
-   Other non-ASCII characters (e.g. Unicode decimal digits, which int accepts)
-   are outside the model: a distinguished error, never produced by the code. *)
-Definition OutOfModel : exn := OtherExn 99.
-Definition int_domain (c : N) : bool := (c <? 128) || py_isspace c.
-
 Definition py_int (s : text) : res Z :=
-  if negb (forallb int_domain s) then Raise OutOfModel else
-  let t := strip_by int_isspace s in
+  let t := strip_by int_isspace (map to_ascii s) in
   let '(neg, d) := match t with
                    | c :: r => if c =? c_minus then (true, r) else if c =? c_plus then (false, r) else (false, t)
                    | [] => (false, [])
@@ -133,30 +132,62 @@ Fixpoint map_res {A B} (f : A -> res B) (l : list A) : res (list B) :=
               end
   end.
 
+(* s.split(sep) for any separator text: leftmost, non-overlapping; the empty
+   separator raises ValueError.  skip = characters of a matched separator still
+   to be passed over; cur = the piece in progress, reversed *)
+Fixpoint starts_with (p s : text) : bool :=
+  match p, s with
+  | [], _ => true
+  | c :: p', d :: s' => (c =? d) && starts_with p' s'
+  | _ :: _, [] => false
+  end.
+
+Fixpoint split_aux (sep : text) (skip : nat) (cur : text) (s : text) : list text :=
+  match s with
+  | [] => [rev cur]
+  | c :: r =>
+      match skip with
+      | S k => split_aux sep k cur r
+      | O => if starts_with sep s then rev cur :: split_aux sep (length sep - 1) [] r
+             else split_aux sep 0 (c :: cur) r
+      end
+  end.
+
+Definition py_split (sep s : text) : res (list text) :=
+  match sep with [] => Raise ValueError | _ => Ok (split_aux sep 0 [] s) end.
+
+(* sep in s (substring test; the empty text is in everything) *)
+Fixpoint contains (sep s : text) : bool :=
+  starts_with sep s || match s with [] => false | _ :: r => contains sep r end.
+
 (* ========================================================================= *)
-(* parse_int_list (one-character delimiters; others are outside the model)    *)
+(* parse_int_list                                                             *)
 (* ========================================================================= *)
 
-Fixpoint parse_parts (rd : N) (parts : list text) (output : list Z) : res (list Z) :=
+Fixpoint parse_parts (rdelim : text) (parts : list text) (output : list Z) : res (list Z) :=
   match parts with
   | [] => Ok (sortZ output)
   | x :: r =>
-      if memN rd x then                                     (* range_delim in x *)
-        match map_res py_int (split1 rd x) with
+      if contains rdelim x then                             (* range_delim in x *)
+        match py_split rdelim x with
         | Raise e => Raise e
-        | Ok lims => parse_parts rd r (output ++ zrange (list_minZ lims) (list_maxZ lims + 1))
+        | Ok ws =>
+            match map_res py_int ws with
+            | Raise e => Raise e
+            | Ok lims => parse_parts rdelim r (output ++ zrange (list_minZ lims) (list_maxZ lims + 1))
+            end
         end
-      else if is_nil x then parse_parts rd r output         (* elif not x: continue *)
+      else if is_nil x then parse_parts rdelim r output     (* elif not x: continue *)
       else match py_int x with
            | Raise e => Raise e
-           | Ok v => parse_parts rd r (output ++ [v])
+           | Ok v => parse_parts rdelim r (output ++ [v])
            end
   end.
 
 Definition parse_int_list (s : text) (delim rdelim : text) : res (list Z) :=
-  match delim, rdelim with
-  | [d], [rd] => parse_parts rd (split1 d (strip_by py_isspace s)) []
-  | _, _ => Raise OutOfModel
+  match py_split delim (strip_by py_isspace s) with
+  | Raise e => Raise e
+  | Ok parts => parse_parts rdelim parts []
   end.
 
 (* ========================================================================= *)
@@ -241,20 +272,6 @@ Definition int_ranges_from_int_list (s : text) (delim rdelim : text) : res (list
 (* deflate coder                                                               *)
 (* ========================================================================= *)
 
-Fixpoint iter_n {A} (n : nat) (f : A -> A) (x : A) : A :=
-  match n with O => x | S k => iter_n k f (f x) end.
-
-Definition crc_byte (crc byte : N) : N :=
-  iter_n 8 (fun c => if N.odd c then N.lxor (N.shiftr c 1) 0xEDB88320 else N.shiftr c 1)
-         (N.lxor crc byte).
-Definition crc32 (b : list N) : N := N.lxor (fold_left crc_byte b 0xFFFFFFFF) 0xFFFFFFFF.
-
-Definition le32 (n : N) : list N :=
-  [n mod 256; (n / 256) mod 256; (n / 65536) mod 256; (n / 16777216) mod 256].
-Definition of_le32 (l : list N) : N :=
-  match l with [a; b; c; d] => a + 256 * b + 65536 * c + 16777216 * d | _ => 0 end.
-
-Definition len_N (b : list N) : N := fold_left (fun n _ => n + 1) b 0.       (* tail recursive *)
 Definition gz_isize (b : list N) : N := len_N b mod 4294967296.
 (* what every gzip member of b ends with *)
 Definition gz_trailer (b : list N) : list N := le32 (crc32 b) ++ le32 (gz_isize b).
